@@ -32,7 +32,7 @@ CLAIMED = {
             TRUST, "DESIGN.md §4 C07, §9.6 round 5"),
     "C08": (SIM + ": two-party copy histories (source reader with look-ahead pre-history, pre-filled destination writer u8..u128, copy_to/copy_from, continuation incl. peeks, table reads and further copies)",
             "exploration",
-            "Destination image = model (previous bits || next n source bits || later writes), source advanced by n, every continuation value equals the model. Measured reach: copies with more than one word / more than 64 bits buffered, n above the buffer, whole u128 words. Scale: copies of 65 000-90 000 bits (1 run in 200) and of more than 2^32 bits between sparse stubs (1 run in 100 000). A quarter of the copies goes through the default copy_to / copy_from of the traits (pass-through wrappers standing for user-defined streams).",
+            "Destination image = model (previous bits || next n source bits || later writes), source advanced by n, every continuation value equals the model. Measured reach: copies with more than one word / more than 64 bits buffered, n above the buffer, whole u128 words. Scale: copies of 65 000-90 000 bits (1 run in 200) and of more than 2^32 bits between sparse stubs (1 run in 100 000). A quarter of the copies goes through the default copy_to / copy_from of the traits (pass-through wrappers standing for user-defined streams). A quarter of the strict-source runs ends with a copy of more bits than the source holds: it must fail without altering what the destination held before.",
             TRUST, "DESIGN.md §4 C08, §9.6 round 5"),
     "C09": (SIM + " with fault injection: producer crash = valid stream truncated after a backend word; strict readers over 6 strict backends incl. a stub failing with EOF or a hard error; zero-extended reader",
             "fault_enumeration",
